@@ -90,7 +90,7 @@ func checkC02(c *core.Ctx) {
 		"non-trivial = piece with a rest, an instance with >= 2 fractions and a denominator not dividing T; distinct by the sequence of (kind, exact duration)")
 	c.Assume("math/big exact rationals", "smfdec", "T is read from the file header", "instances shorter than 2 ticks are not generated (a zero-length chord has no observable onset group)")
 
-	c.Stream("random", c.N(5000, 50000), func(i int, r *rand.Rand) {
+	c.Stream("random", c.N(5000, 120000), func(i int, r *rand.Rand) {
 		n := 1 + r.Intn(c.N(14, 40))
 		var p model.Piece
 		restRun := 0
